@@ -410,5 +410,6 @@ pub fn run(opts: &Opts) -> Report {
         }
         if i == 0 { rep.sample(json!({"case": line, "implementation": a})); }
     }
+    crate::fam::transpose_crafted::run_all(&mut rep);
     rep
 }
